@@ -229,6 +229,10 @@ structure FileKind where
   emits : Option (Phase × (String → Diag))
   deriving Inhabited
 
+/-- how many times the file makes the compiler say it -/
+def FileKind.count (k : FileKind) : Nat :=
+  if k.tag == "wdepmany" then 120 else if k.tag == "wdocmany" then 110 else 1
+
 def srcText (s : String) : FileSpec := .text (b s)
 
 def kClean : FileKind := ⟨"clean", fun i => srcText s!"module M\nstruct C{i} \{ x: int32 }\n", none⟩
@@ -243,6 +247,15 @@ def kWLink : FileKind :=
    some (.links, fun _ => .lint "BrokenDocLink" false)⟩
 def kWDoc : FileKind :=
   ⟨"wdoc", fun i => srcText s!"module M\n/// @foo bar\nstruct W{i} \{}\n",
+   some (.parse, fun _ => .lint "MalformedDocComment" false)⟩
+/-- 120 uses of a deprecated type: more diagnostics than any plausible internal limit, all recorded before the later phases run -/
+def kWDepMany : FileKind :=
+  ⟨"wdepmany", fun i => srcText (s!"module M\n[deprecated] struct DM{i} \{}\nstruct UM{i} \{\n" ++
+      String.join ((List.range 120).map fun j => s!"    f{j}: DM{i}\n") ++ "}\n"),
+   some (.typeRefs, fun _ => .lint "Deprecated" false)⟩
+/-- 110 malformed doc comments (recorded while parsing) -/
+def kWDocMany : FileKind :=
+  ⟨"wdocmany", fun i => srcText (s!"module M\n" ++ String.join ((List.range 110).map fun j => s!"/// @foo bar\nstruct WM{i}x{j} \{}\n")),
    some (.parse, fun _ => .lint "MalformedDocComment" false)⟩
 def kEMissing : FileKind := ⟨"emissing", fun _ => .absent, some (.resolve, fun p => .io .read (b p))⟩
 def kEUtf8 : FileKind :=
@@ -279,15 +292,15 @@ def Program.files (p : Program) : List (String × FileSpec) :=
 def Program.outcomes (p : Program) : PhaseOutcomes :=
   let idx := (List.range p.kinds.length).zip p.kinds
   let at' (ph : Phase) : List Diag :=
-    idx.filterMap fun (i, k) =>
+    idx.flatMap fun (i, k) =>
       match k.emits with
-      | some (q, d) => if q == ph then some (d ("../src/" ++ fileName i)) else none
-      | none => none
+      | some (q, d) => if q == ph then List.replicate k.count (d ("../src/" ++ fileName i)) else []
+      | none => []
   let readable := idx.filter fun (_, k) => !(k.emits.map (·.1) == some Phase.resolve)
   { resolve := at' .resolve ++ (if p.dup then [.lint "DuplicateFile" false] else []),
     parse := readable.map fun (_, k) =>
       match k.emits with
-      | some (.parse, d) => [d ""]
+      | some (.parse, d) => List.replicate k.count (d "")
       | _ => [],
     attributes := at' .attributes, typeRefs := at' .typeRefs, links := at' .links,
     cycles := at' .cycles, redefinitions := at' .redefinitions, visitor := at' .visitor }
